@@ -124,8 +124,16 @@ def oracle(case, rec):
         ok &= rec.check(set(r) <= set(case['knees']), label + ':not-a-subset-of-the-knees', (r, case['knees']))
         return r if ok else None
 
+    lib.poison(-1e300)
     out = rec.call(4 * n + 16, pp.filter_clusters, p, knees, link, t, getattr(kr.ClusterRanking, mode), _site='pp.filter_clusters')
     if out is not FAILED:
+        # the same call after a different heap poison must give the same answer
+        lib.poison(1e300)
+        again = rec.call(4 * n + 16, pp.filter_clusters, p, knees, link, t, getattr(kr.ClusterRanking, mode), _site='pp.filter_clusters')
+        lib.poison(0.0)
+        if again is not FAILED:
+            rec.check(np.array_equal(np.asarray(out), np.asarray(again)), 'clusters:not-deterministic',
+                      'two identical calls returned %r and %r' % (np.asarray(out).tolist(), np.asarray(again).tolist()))
         r = subset(out, 'clusters')
         if r is not None and mode != 'hull':
             per = [[k for k in r if k in set(c)] for c in clusters]
